@@ -139,6 +139,45 @@ def fork_eval(fn, args, timeout):
     return res
 
 
+_LINE_CACHE = {}
+
+
+def start_raise_monitor():
+    """Reach probe: which source lines of unyt raised an exception during this
+    run (sys.monitoring RAISE events fire at the origin only; the evidence
+    writer intersects them with the `raise` statements found by ast).  Draws
+    nothing from the PRNG, decides nothing."""
+    sites = set()
+    mon = getattr(sys, "monitoring", None)
+    if mon is None:
+        return sites
+    root = os.path.join(os.path.realpath(unyt_src()), "unyt") + os.sep
+    tool = 4
+    try:
+        mon.use_tool_id(tool, "unytsim-raise-sites")
+    except ValueError:
+        return sites
+
+    def on_raise(code, offset, exc):
+        fn = code.co_filename
+        if not fn.startswith(root) or "/tests/" in fn:
+            return
+        key = (code, offset)
+        line = _LINE_CACHE.get(key)
+        if line is None:
+            line = code.co_firstlineno
+            for start, end, ln in code.co_lines():
+                if start <= offset < end and ln is not None:
+                    line = ln
+                    break
+            _LINE_CACHE[key] = line
+        sites.add((fn[len(root):], line))
+
+    mon.register_callback(tool, mon.events.RAISE, on_raise)
+    mon.set_events(tool, mon.events.RAISE)
+    return sites
+
+
 def run_child(fn, args, timeout, cold_fn=None, cold_timeout=30.0):
     """Fork a run child executing fn(channel, *args).
 
@@ -158,7 +197,11 @@ def run_child(fn, args, timeout, cold_fn=None, cold_timeout=30.0):
             os.close(down_w)
             chan = Channel(up_w, down_r)
             try:
-                res = ("done", ("ok", fn(chan, *args)))
+                sites = start_raise_monitor()
+                out = fn(chan, *args)
+                if isinstance(out, dict):
+                    out["raise_sites"] = sorted(sites)
+                res = ("done", ("ok", out))
             except BaseException:
                 res = ("done", ("crash", traceback.format_exc()))
             send_msg(up_w, res)
